@@ -228,5 +228,32 @@ def run(c):
         c.cov["evaluations"] += res["frames"]
         c.cov["distinct_nontrivial"] += res["nontrivial_runs"]
         c.cov.setdefault("trace_stats", []).append({k: res[k] for k in ("q", "runs", "frames", "emits", "errs", "nontrivial_runs")})
+    # ---- 4. end-to-end: honest packets through the real data plane (client <-> server, WireGuard between)
+    e2e = c.cargo_build("vh-edgetun", bin="e2e")
+    ev = os.path.join(c.work, "e2e.ndjson")
+    resj = os.path.join(c.work, "e2e.json")
+    rc, so = c.sh([e2e, ev, resj], timeout=3000)
+    if rc != 0:
+        c.fail_tool("e2e harness failed rc=%s %s" % (rc, so[-500:]))
+    res = json.load(open(resj))
+    if res["delivered"] == 0 or res["nontrivial_runs"] == 0:
+        c.fail_tool("e2e driver delivered nothing (vacuous)")
+    for pv in res["pv"]:
+        c.violation(pv["key"], pv["what"] + " (e2e run %s, seed %d)" % (pv.get("run"), c.seed), {"seed": c.seed, "pv": pv, "driver": "e2e"})
+    for q in res["qs"]:
+        r = c.tlc(SD, "Trace_Reassembly", mode="trace", env={"TRACE": "%s.q%d" % (ev, q)}, timeout=3000)
+        if r.violated:
+            for inv in r.violated:
+                c.violation("trace:e2e:%s" % inv, "invariant %s violated on an execution of the real data plane (Q=%d); TLC output %s" % (inv, q, r.out_path),
+                            {"trace": "%s.q%d" % (ev, q), "tlc_out": r.out_path})
+        elif r.postcondition_failed or not r.ok:
+            txt = open(r.out_path).read()
+            um = [l for l in txt.splitlines() if "UNMATCHED" in l or "TRACE-REJECTED" in l]
+            c.drift("e2e trace Q=%d not accepted by Trace_Reassembly: %s" % (q, " ".join(um)[:400]))
+        else:
+            traces += 1
+    c.cov["evaluations"] += res["frames"]
+    c.cov["distinct_nontrivial"] += res["nontrivial_runs"]
+    c.cov["e2e_stats"] = {k: res[k] for k in ("runs", "sent", "delivered", "frames", "nontrivial_runs", "qs")}
     c.cov["traces_validated_against_impl"] = traces
     c.sample({"trace_event": "recv so/off/len/last + outcome per frame, see spec/Reassembly/Trace_Reassembly.tla"})
